@@ -80,6 +80,8 @@ struct websocket {
 
 	uint8_t sec_web_socket_key[SEC_WEB_SOCKET_KEY_LENGTH + SEC_WEB_SOCKET_GUID_LENGTH];
 	enum header_field current_header_field;
+	bool key_received;
+	bool version_received;
 
 	struct {
 		unsigned int fin : 1;
